@@ -73,7 +73,7 @@ PROPS = {
               "...+idft_tmp_a) for (N, operand family, dispatch, res/a limb counts, stride, repetition); distinct by "
               "descriptor hash; non-trivial when both operands are non-zero, N >= 4 and at least one row is produced"
              " Later additions have their own keys in by_case_class (DESIGN.md 5.1): call sequences and object life cycles, multi-threaded cases (also run under ThreadSanitizer), sweeps over every value of a size parameter, placement / alignment / data-structure modes drawn from the case hash."),
-        require={"all": ["concurrent_entry_calls", "products_checked", "exact_regime_products", "budget_regime_products", "frontier_products", "lifecycle_products", "lifecycle_uses", "same_buffers_other_data_calls", "idft_variant:idft(res==a_dft),short-dft",
+        require={"all": ["concurrent_entry_calls", "products_checked", "exact_regime_products", "budget_regime_products", "frontier_products", "lifecycle_products", "lifecycle_uses", "same_buffers_other_data_calls", "prepare_arguments_overwritten_before_use", "idft_variant:idft(res==a_dft),short-dft",
                          "zero_rows_checked", "oracle_selfcheck_ok"]},
         assumptions=["exact oracle: schoolbook with 128-bit accumulators, or an oracle-side NTT modulo a 62-bit prime "
                      "(cross-checked against schoolbook at start-up)",
@@ -86,7 +86,7 @@ PROPS = {
               "prepare + both apply entry points + inverse DFT; distinct by descriptor hash; non-trivial when "
               "min(nrows,a_size) >= 1 and min(ncols,res_size) >= 1 (zero-size classes are counted separately)"
              " Later additions have their own keys in by_case_class (DESIGN.md 5.1): call sequences and object life cycles, multi-threaded cases (also run under ThreadSanitizer), sweeps over every value of a size parameter, placement / alignment / data-structure modes drawn from the case hash."),
-        require={"all": ["shapes_checked", "columns_checked", "zero_columns_checked", "exact_regime_columns", "zero_polynomial_matrix_entries", "concurrent_prepare_apply_calls", "scaled_input_limbs_cases", "same_buffers_other_data_calls",
+        require={"all": ["shapes_checked", "columns_checked", "zero_columns_checked", "exact_regime_columns", "zero_polynomial_matrix_entries", "concurrent_prepare_apply_calls", "scaled_input_limbs_cases", "same_buffers_other_data_calls", "prepare_arguments_overwritten_before_use",
                          "layout:column-major(N<8)", "layout:blocked", "layout:blocked(one block)"]},
         assumptions=["exact oracle per (row, column) product summed in 128-bit integers; budget = sum of the C01 "
                      "budgets of the rows + 1/2", "scratch buffers are exactly *_tmp_bytes and NaN-prefilled", ASAN_NOTE],
